@@ -635,13 +635,27 @@ ctl_connect(victim *v, int k)
 			    (rv = nng_listener_set_int(v->l, NNG_OPT_SOCKET_FD, sv[0])) != 0) vf_harness_fail("ctl sockfd: %s", nng_strerror(rv));
 			int64_t left = ((int64_t) end - (int64_t) vf_now_ns()) / 1000000;
 			if (left <= 0 || !wait_atomic_ge(&c->add, adds0 + 1, (int) left, v)) return false;
-			left = ((int64_t) end - (int64_t) vf_now_ns()) / 1000000;
-			if (left <= 0 || !wait_atomic_ge(&v->post, post0 + 1, (int) left, v)) return false;
-			if (!v->vp->single) return true;
-			// refused? (the refusal follows the acceptance at once)
-			uint64_t g = vf_now_ns() + 15ULL * 1000000ULL;
-			while (vf_now_ns() < g && atomic_load(&c->rem) == rems0) vf_usleep(300);
-			if (atomic_load(&c->rem) == rems0) return true;
+			// accepted by the victim's socket, or refused (its end is closed)?
+			bool refused = false;
+			for (;;) {
+				if (atomic_load(&c->rem) != rems0) {
+					refused = true;
+					break;
+				}
+				if (atomic_load(&v->post) > post0) break;
+				if (vf_now_ns() > end) return false;
+				pump(v);
+				vf_usleep(300);
+			}
+			if (!refused) {
+				if (!v->vp->single) return true;
+				// the ADD_POST may have been another (late) pipe's: a refusal
+				// follows the acceptance at once
+				uint64_t g = vf_now_ns() + 15ULL * 1000000ULL;
+				while (vf_now_ns() < g && atomic_load(&c->rem) == rems0) vf_usleep(300);
+				if (atomic_load(&c->rem) == rems0) return true;
+			}
+			if (vf_now_ns() > end) return false;
 			vf_stat("control_refused_slot_taken_retry", 1);
 			post0 = atomic_load(&v->post);
 			settle(v, 300);
@@ -655,6 +669,14 @@ ctl_connect(victim *v, int k)
 	}
 	if ((rv = nng_dial(c->s, durl, NULL, NNG_FLAG_NONBLOCK)) != 0) vf_harness_fail("ctl dial %s: %s", durl, nng_strerror(rv));
 	if (!wait_atomic_ge(&c->add, 1, 8000, v)) return false;
+	if (v->tran == T_UDP) {
+		// a dialer that happens to get the source port of an earlier client
+		// whose pipe the victim still keeps (its DISC was not sent) is taken
+		// for that peer refreshing: no new pipe on the victim's side.  The
+		// exchange that follows decides whether the connection works.
+		(void) wait_atomic_ge(&v->post, post0 + 1, 300, v);
+		return true;
+	}
 	if (!wait_atomic_ge(&v->post, post0 + 1, 8000, v)) return false;
 	return true;
 }
@@ -960,6 +982,14 @@ spin_ev(int ev, const void *obj, uintptr_t a, uintptr_t b)
 static void
 spin_window(victim *v, const char *when)
 {
+	// the window must not start while the victim is still working off what
+	// was sent (a flood read in small pieces keeps it busy for a while); if
+	// it never gets quiet within 2 s the window measures exactly that
+	uint64_t qend = vf_now_ns() + 2000ULL * 1000000ULL;
+	while (vf_now_ns() < qend) {
+		pump(v);
+		if (vf_quiesce(3, 40)) break;
+	}
 	long e0 = vf_ev_count(NNI_VE_AIO_EXPIRE), t0e = vf_ev_count(NNI_VE_TASK_ENQ), p0 = vf_ev_count(NNI_VE_POLL_BEGIN);
 	atomic_store(&spin_expired, 0);
 	vf_ev_hook(spin_ev);
